@@ -9,6 +9,13 @@ E2  every transition of the cover configuration's state graph (3 registers, move
     replayed on the real OnceFunction; every Create takes the next of the 11 sizes x 9 alignments callable
     types (template instantiations) and one of three construction forms (in place from a temporary,
     move-assigned from another OnceFunction, from an lvalue), every Move one of two forms.
+E2c callables WITHOUT data members.  Every Callable<S, A> of the rotation has bytes[S]; the 100th slot of the
+    rotation (cover replay, random sequences, directed run) is a std::is_empty callable type (sizeof 1, alignof 1)
+    whose constructions, moves, invocations and destructions are booked through statics (identity by address
+    outside of the object: prototype, husks, "the value" = everything else), and whose re-entrant form nests an
+    empty callable too.  "No data members" is not "nothing to tear down" (guards / tracers): an implementation
+    that special-cases stateless callables (no destructor call, no construction, two destructions) is judged by
+    the same trace specification - dtor/live/inv per callable after every operation.
 E3  each recorded operation (inline/spill decision, address % alignof at construction / invocation /
     destruction, bytes intact after the memcpy moves, where it was destroyed, which size class' thread
     cache received the block, invocation/live/destruction counters of every callable, husks, blocks
